@@ -526,7 +526,7 @@ PROPS["C10"] = dict(engine="corrupt", profiles=[("corrupt", 1, False)], n_ops=40
                     rule="histories build small trees (standard and KV-separated); for every file (tables, blob files, v*, current) every region (block headers, block payloads per block type, index, filter, meta, trailer/ToC, frame header/key/value) gets bit flips and truncations at sampled offsets; after each mutation a forked child opens the tree and performs all point reads and scans, and for table / blob files then runs a major compaction (which reads every table through the compaction scanner) and repeats all reads: every single answer must be an error or equal to the original one. evaluations = histories; mutations counted in impl_stats.mutations",
                     relevant=lambda f: f["kind"] in ({"corrupt-different", "corrupt-hang"} | COMMON_KINDS),
                     nontrivial=lambda st: st.get("mutations", 0) >= 50 and st.get("mutations_error", 0) >= 10)
-PROPS["C06"] = dict(engine="conc", profiles=[("conc", 1, False)], n_ops=200, quick=96, thorough=3000,
+PROPS["C06"] = dict(engine="conc", profiles=[("conc", 1, False)], n_ops=200, quick=480, thorough=3000,
                     tb_extra=["interleaving model coq/Model/Conc.v: atomic steps are the source's critical sections (version_history read/write guard, compaction_state mutex + hidden set, flush lock, major-compaction lock, seqno counters); std::sync and crossbeam-skiplist are modelled as atomic, the hardware memory model is outside",
                               "harness/src/conc.rs: real threads; every read is logged with the snapshot it used and the superversion it resolved to, and replayed through the certificate / oracle runner"],
                     assumptions=["partial: the proof covers every schedule of the model's atomic steps; real runs sample OS schedules only", "known finding K2 (unclean snapshots) is reported as KNOWN-FINDING, proved as P_C06_reads_unclean_refuted"],
